@@ -204,3 +204,26 @@ Theorem C08_reveal_before_incremental : forall n T M dr, (2 <= n)%nat -> TInv n 
                        else (0, l1, r1) in
   a1 + a2 = snd (rs_finish n (flat n T rs_init (us ++ ws))) - snd A - snd B.
 Proof. intros n T M dr Hn I Hr Hx. exact (reveal_before_incremental n Hn T M I dr Hr Hx). Qed.
+
+(* Both sides of one fragment: the whole preceding context in instalments (plus its closing call), then all pointers of the
+   following fragment in instalments (plus its closing call), accumulate the score of the three fragments' concatenation minus
+   the three scores.  (After the left-hand side is done, the fragment's right state is the right state of the concatenation and
+   its completeness flag is that of the concatenation's left state -- rb_state_is_concat -- and RevealAfter looks at the left
+   state it is given only through that flag.) *)
+Theorem C08_reveal_both_sides : forall n T M dr, (2 <= n)%nat -> TInv n T M ->
+  (dr = false -> forall k e, T k = Some e -> e_rest e = e_prob e) ->
+  (forall k e, T k = Some e -> e_ext e = true -> (2 <= length k)%nat -> exists x, T (x :: k) <> None) ->
+  forall us ws vs cb cutsb ca cutsa, Forall (known T) us -> Forall (known T) ws -> Forall (known T) vs ->
+  let U := rs_finish n (flat n T rs_init us) in
+  let Mf := rs_finish n (flat n T rs_init ws) in
+  let V := rs_finish n (flat n T rs_init vs) in
+  let rv := c_right (fst U) in
+  let P := l_ptrs (c_left (fst V)) in
+  sincreasing 0 (cb :: cutsb) (length (s_words rv)) -> last cutsb cb = length (s_words rv) ->
+  increasing 0 (ca :: cutsa) (length P) -> last cutsa ca = length P ->
+  let '(a1, l1, r1) := rb_seq n T dr (s_words rv) (s_bo rv) (c_left (fst Mf)) (c_right (fst Mf)) 0 (cb :: cutsb) in
+  let '(a2, l2, r2) := if l_full (c_left (fst U)) then reveal_before n T dr rv (length (s_words rv)) true l1 r1 else (0, l1, r1) in
+  let '(a3, l3, r3) := ra_seq n T dr l2 r2 P 0 (ca :: cutsa) in
+  let '(a4, l4, r4) := if l_full (c_left (fst V)) then reveal_after n T dr l3 r3 {| l_ptrs := P; l_full := true |} (length P) else (0, l3, r3) in
+  a1 + a2 + a3 + a4 = snd (rs_finish n (flat n T rs_init (us ++ ws ++ vs))) - snd U - snd Mf - snd V.
+Proof. intros n T M dr Hn I Hr Hx. exact (reveal_both_sides n Hn T M I dr Hr Hx). Qed.
